@@ -13,7 +13,7 @@ RULE = ('seeded sessions over all operations pushed to the extremes the API can 
         'to 2^32-1, maxdata up to 1 MiB with 0xFF-filled pushes, bytes and bytearray payloads, DONE mtimes up to 2^32-1, long paths; a fifth of the sessions authenticate with 1-4 keys against a device that rejects the first ones); every host '
         'byte is parsed by an independent decoder; non-trivial = the run carried >= 1 payload packet and >= 4 packets; distinct = event-log digests')
 ASSUMPTIONS = ['the pack/unpack clause is exercised only at the values simulated sessions produce (incl. 32-bit extremes); no separate input fuzzer is claimed']
-EXPECT_PROBES = {'all': ['c02_arg_ge_2_31', 'c02_payload_sum_ge_2_24', 'c02_payload_ge_64k', 'c02_auth_messages']}
+EXPECT_PROBES = {'all': ['c02_arg_ge_2_31', 'c02_payload_sum_ge_2_24', 'c02_payload_ge_64k', 'c02_auth_messages', 'c02_newer_version_64k', 'c02_tcp_backpressure']}
 KINDS = ['shell', 'exec_out', 'streaming_shell', 'root', 'list', 'stat', 'pull', 'push', 'push', 'push']
 OWN = ('wire-format', 'wire-partial-message', 'unpack-mismatch', 'hang', 'no-termination')
 
@@ -34,6 +34,17 @@ def generate(seed, tier):
         scn['actors'][0].append({'op': 'push', 'src': g.pick(['bytesio', 'file']), 'content': {'seed': 1, 'size': size, 'alpha': 'ff'},
                                  'path': '/data/' + 'p' * g.pick([1, 200, 1000]), 'mtime': g.pick([0xFFFFFFFF, 0x80000000, 0]), 'mode': 0o100644})
         scn['config']['frag'] = 'whole'
+    if g.chance(0.3):
+        # the device announces a newer protocol version than the library's 0x01000000: the connection runs at the lower of the two,
+        # so the device still verifies every checksum
+        d['version'] = g.pick([0x01000001, 0x01000001, 0x01000002, 0xFFFFFFFF])
+    if scn['api'] == 'async' and g.chance(0.25):
+        # real TcpTransportAsync over the simulated asyncio transport, a slow reader and a small kernel buffer: what asyncio has
+        # queued when drain() returns must still reach the wire exactly once
+        scn['transport'] = 'tcp'
+        scn['tcp'] = {'sndbuf': g.pick([256, 4096, 65536]), 'drain': g.pick([64, 1000, 30000]), 'drain_every': g.pick([1e-4, 1e-3]),
+                      'high_water': g.pick([4096, 65536])}
+        scn['config'].pop('short', None)
     if g.chance(0.2):
         # AUTH messages: several keys, the device accepts a later one (or only the public key), fresh token per challenge
         nk = g.int(1, 4)
@@ -73,6 +84,10 @@ def evaluate(case, tapes=None):
             pr['c02_auth_messages'] = pr.get('c02_auth_messages', 0) + 1
         if ln >= 65536:
             pr['c02_payload_ge_64k'] = pr.get('c02_payload_ge_64k', 0) + 1
+            if scn['device'].get('version', W.A_VERSION) > W.A_VERSION:
+                pr['c02_newer_version_64k'] = pr.get('c02_newer_version_64k', 0) + 1
+    if scn.get('transport') == 'tcp' and getattr(run.sock, 'backlogged', 0):
+        pr['c02_tcp_backpressure'] = pr.get('c02_tcp_backpressure', 0) + 1
     out['violations'] = [p for p in probs if p[0] in OWN]
     out['notes'] = O.check_session(run, scn)
     out['nontrivial'] = npay >= 1 and len(run.device.host_pkts) >= 4
